@@ -4,6 +4,7 @@ import OV.Lemmas.C20Round
 import OV.Lemmas.C20Fault
 import OV.Lemmas.C20Sim
 import OV.Lemmas.C20SimF
+import OV.Lemmas.C20Hist
 /-!
 # C20 — saving with external data round-trips and never disturbs the in-memory model
 
@@ -316,7 +317,8 @@ theorem layout_readback (pre : Bytes) (bs : List Bytes) (i : Nat) (h : i < bs.le
 `const_value` slots as initializers, and `bs` lists, initializer by initializer, the bytes its tensor denotes —
 `All2 (InitOK dest fs heap) cv bs` (`OV.Lemmas.C20Round`): every initializer is initialized with a tensor object that is
 either in memory or a *valid* external tensor that does **not live in the destination data file** and is readable on `fs`
-(its bytes are `FS.read fs file off len`).  Conclusion: `save_model_with_external_data` succeeds, and `load` of what it
+(its bytes are `FS.read fs file off len`); and, where the guard of 3d20cf2 is present, none lives in the model file `dir/name`
+either (`hmpf`).  Conclusion: `save_model_with_external_data` succeeds, and `load` of what it
 left on the file system — read the written proto; for each entry take the inline bytes or read `(location, offset, length)`
 back from the file system — returns **for every initializer exactly its name, graph level and bytes, in the original
 initializer order** (`zip3 sig bs`).  Covered by the proof: the guard, classification by the 256-byte threshold (small
@@ -325,20 +327,22 @@ preserving rearrangement), offsets/alignment/padding, all three `tofile` paths i
 the new `ExternalTensor`s restored to input order, the pointer swap, `serialize`, the model-file write, and the `finally`. -/
 theorem roundtrip_outside_destination (cfg : Cfg) (m : Model) (dir name : String) (verbose : Bool) (fs : FS) (bs : List Bytes)
     (hsig : m.sig.length = m.cv.length)
-    (hinit : All2 (InitOK (joinPath dir (name ++ ".data")) fs m.heap) m.cv bs) :
+    (hinit : All2 (InitOK (joinPath dir (name ++ ".data")) fs m.heap) m.cv bs)
+    (hmpf : cfg.refuseModel = false ∨ destHits (joinPath dir name) m.heap m.cv = []) :
     (runSave cfg m dir name verbose fs none).res = .ok () ∧
     load (runSave cfg m dir name verbose fs none).st.fs dir name = some (zip3 m.sig bs) := by
-  obtain ⟨s', h1, h2⟩ := save_load_ok cfg m.sig m.tnames dir name (verbose && cfg.tqdm) (init m fs none) bs rfl hsig hinit
+  obtain ⟨s', h1, h2⟩ := save_load_ok cfg m.sig m.tnames dir name (verbose && cfg.tqdm) (init m fs none) bs rfl hsig hinit hmpf
   unfold runSave
   rw [h1]
   exact ⟨rfl, h2 _ rfl rfl⟩
 
 example : ∃ (m : Model) (fs : FS) (bs : List Bytes), m.sig.length = m.cv.length ∧ bs.length = 3 ∧
-    All2 (InitOK (joinPath "" ("m" ++ ".data")) fs m.heap) m.cv bs :=
+    All2 (InitOK (joinPath "" ("m" ++ ".data")) fs m.heap) m.cv bs ∧ destHits (joinPath "" "m") m.heap m.cv = [] :=
   ⟨{ sig := [("a", false), ("e", true), ("a2", false)], cv := [some 0, some 1, some 0],
      heap := [.mem [1, 2, 3] true, .ext "w.bin" 1 2 true] },
    [("w.bin", .data [9, 8, 7])], [[1, 2, 3], [8, 7], [1, 2, 3]], rfl, rfl,
-   .cons ⟨0, _, rfl, rfl, rfl⟩ (.cons ⟨1, _, rfl, rfl, ⟨rfl, by decide, by decide⟩⟩ (.cons ⟨0, _, rfl, rfl, rfl⟩ .nil))⟩
+   .cons ⟨0, _, rfl, rfl, rfl⟩ (.cons ⟨1, _, rfl, rfl, ⟨rfl, by decide, by decide⟩⟩ (.cons ⟨0, _, rfl, rfl, rfl⟩ .nil)),
+   by decide⟩
 
 /-- **A fault is never swallowed** (both branches — with and without the progress bar — and every guard configuration):
 if the call planned to fail (`k = some n`) was reached, i.e. at least `n + 1` file-system calls were made, the function does
@@ -399,10 +403,11 @@ returns normally, whatever fault had been planned (it was then never reached, `f
 theorem roundtrip_on_success_outside_destination (cfg : Cfg) (m : Model) (dir name : String) (verbose : Bool) (fs : FS) (bs : List Bytes)
     (k : Option Nat) (hsig : m.sig.length = m.cv.length)
     (hinit : All2 (InitOK (joinPath dir (name ++ ".data")) fs m.heap) m.cv bs)
+    (hmpf : cfg.refuseModel = false ∨ destHits (joinPath dir name) m.heap m.cv = [])
     (hok : (runSave cfg m dir name verbose fs k).res = .ok ()) :
     load (runSave cfg m dir name verbose fs k).st.fs dir name = some (zip3 m.sig bs) := by
   obtain ⟨_, h2⟩ := ok_run_is_fault_free cfg m dir name verbose fs k hok
-  have hr := (roundtrip_outside_destination cfg m dir name verbose fs bs hsig hinit).2
+  have hr := (roundtrip_outside_destination cfg m dir name verbose fs bs hsig hinit hmpf).2
   rw [h2] at hr
   exact hr
 
@@ -425,28 +430,77 @@ theorem usable_of_ok (cfg : Cfg) (hr : cfg.refuse = true) (m : Model) (dir name 
       rw [hok] at h1
       cases h1
 
+/-- **A tensor stored in the model file itself is refused** (3d20cf2, finding C20-D5; `cfg.refuseModel = true` is the code as
+it is): whenever some initializer's tensor is an `ExternalTensor` stored in the file at `dir/name` — the file `onnx.save` is
+about to overwrite — the call raises `ValueError`, for every fault plan, threshold and verbosity, and the whole state (0
+file-system calls, files, tensor objects, pointers, names) is the initial one. -/
+theorem model_file_tensor_refused (cfg : Cfg) (hrm : cfg.refuseModel = true) (m : Model) (dir name : String) (verbose : Bool)
+    (fs : FS) (k : Option Nat) (h : destHits (joinPath dir name) m.heap m.cv ≠ []) :
+    (runSave cfg m dir name verbose fs k).res = .error .valueError ∧
+    (runSave cfg m dir name verbose fs k).st = init m fs k := by
+  have hd' : (destHits (joinPath dir name) (init m fs k).heap (init m fs k).cv).isEmpty = false := by
+    cases hl : destHits (joinPath dir name) m.heap m.cv with
+    | nil => exact absurd hl h
+    | cons a as => simp [init, hl]
+  obtain ⟨h1, h2⟩ := save_guard3 cfg m.sig m.tnames dir name (verbose && cfg.tqdm) (init m fs k) hrm hd'
+  unfold runSave
+  cases hs : save cfg m.sig m.tnames dir name (verbose && cfg.tqdm) (init m fs k) with
+  | mk r s' => rw [hs] at h1 h2; exact ⟨h1, h2⟩
+
+/-- The C20-D5 witness on the code as it is: refused, nothing touched, the tensor still reads its bytes. -/
+example :
+    let m : Model := { sig := [("e", false)], cv := [some 0], heap := [.ext "w.bin" 0 300 true] }
+    let fs : FS := [("w.bin", .data (List.replicate 300 7))]
+    let r := runSave {} m "" "w.bin" false fs none
+    destHits (joinPath "" "w.bin") m.heap m.cv ≠ [] ∧ r.res = .error .valueError ∧ r.st.calls = 0 ∧ r.st.fs = fs ∧
+    bytesOf r.st.fs (.ext "w.bin" 0 300 true) = some (List.replicate 300 7) := by
+  decide +kernel
+
+/-- A normal return shows that the model-file half of the guard had nothing to refuse. -/
+theorem model_file_free_of_ok (cfg : Cfg) (m : Model) (dir name : String) (verbose : Bool) (fs : FS) (k : Option Nat)
+    (hok : (runSave cfg m dir name verbose fs k).res = .ok ()) :
+    cfg.refuseModel = false ∨ destHits (joinPath dir name) m.heap m.cv = [] := by
+  cases hrm : cfg.refuseModel with
+  | false => exact Or.inl rfl
+  | true =>
+    right
+    by_cases hd : destHits (joinPath dir name) m.heap m.cv = []
+    · exact hd
+    · have := (model_file_tensor_refused cfg hrm m dir name verbose fs k hd).1
+      rw [hok] at this
+      cases this
+
 /-- **Round trip — the code as it is** (second guard present), fault-free run, *no condition on where external tensors
 live*.  Hypotheses: as many `const_value` slots as initializers; `All2 (InitR fs heap) cv bs`: every initializer is
 initialized with an in-memory tensor or a valid external tensor readable on `fs`, denoting `bs[i]`.  Then exactly one of:
 * the call succeeds and `load` of what it wrote returns every initializer's name, level and bytes in the original order;
-* some initializer is stored in the destination data file, the call raises `ValueError`, and the whole state (files,
-  tensor objects, pointers, call count 0) is the initial one. -/
+* some initializer is stored in the destination data file — or (guard of 3d20cf2) in the model file `dir/name` itself —,
+  the call raises `ValueError`, and the whole state (files, tensor objects, pointers, call count 0) is the initial one. -/
 theorem roundtrip (cfg : Cfg) (hr : cfg.refuse = true) (m : Model) (dir name : String) (verbose : Bool) (fs : FS)
     (bs : List Bytes) (hsig : m.sig.length = m.cv.length) (hinit : All2 (InitR fs m.heap) m.cv bs) :
     ((runSave cfg m dir name verbose fs none).res = .ok () ∧
       load (runSave cfg m dir name verbose fs none).st.fs dir name = some (zip3 m.sig bs)) ∨
-    (destHits (joinPath dir (name ++ ".data")) m.heap m.cv ≠ [] ∧
+    ((destHits (joinPath dir (name ++ ".data")) m.heap m.cv ≠ [] ∨
+        (cfg.refuseModel = true ∧ destHits (joinPath dir name) m.heap m.cv ≠ [])) ∧
       (runSave cfg m dir name verbose fs none).res = .error .valueError ∧
       (runSave cfg m dir name verbose fs none).st = init m fs none) := by
   by_cases hd : (destHits (joinPath dir (name ++ ".data")) m.heap m.cv).isEmpty = true
-  · left
-    exact roundtrip_outside_destination cfg m dir name verbose fs bs hsig
-      (initOK_of_readable _ _ _ hinit (List.isEmpty_iff.mp hd))
+  · by_cases hm : cfg.refuseModel = false ∨ destHits (joinPath dir name) m.heap m.cv = []
+    · left
+      exact roundtrip_outside_destination cfg m dir name verbose fs bs hsig
+        (initOK_of_readable _ _ _ hinit (List.isEmpty_iff.mp hd)) hm
+    · right
+      have hrm : cfg.refuseModel = true := by
+        cases h : cfg.refuseModel with
+        | false => exact absurd (Or.inl h) hm
+        | true => rfl
+      have hne : destHits (joinPath dir name) m.heap m.cv ≠ [] := fun h => hm (Or.inr h)
+      exact ⟨Or.inr ⟨hrm, hne⟩, model_file_tensor_refused cfg hrm m dir name verbose fs none hne⟩
   · right
     have hd' : (destHits (joinPath dir (name ++ ".data")) (init m fs none).heap (init m fs none).cv).isEmpty = false := by
       simpa [init] using hd
     obtain ⟨h1, h2⟩ := save_guard2 cfg m.sig m.tnames dir name (verbose && cfg.tqdm) (init m fs none) hr hd'
-    refine ⟨fun h => hd (by rw [h]; rfl), ?_, ?_⟩
+    refine ⟨Or.inl (fun h => hd (by rw [h]; rfl)), ?_, ?_⟩
     · unfold runSave
       cases hs : save cfg m.sig m.tnames dir name (verbose && cfg.tqdm) (init m fs none) with
       | mk r s' => rw [hs] at h1; exact h1
@@ -462,7 +516,7 @@ theorem roundtrip_on_success (cfg : Cfg) (hr : cfg.refuse = true) (m : Model) (d
     (hok : (runSave cfg m dir name verbose fs k).res = .ok ()) :
     load (runSave cfg m dir name verbose fs k).st.fs dir name = some (zip3 m.sig bs) :=
   roundtrip_on_success_outside_destination cfg m dir name verbose fs bs k hsig
-    (usable_of_ok cfg hr m dir name verbose fs bs k hinit hok) hok
+    (usable_of_ok cfg hr m dir name verbose fs bs k hinit hok) (model_file_free_of_ok cfg m dir name verbose fs k hok) hok
 
 /-- Both cases of `roundtrip` occur (default configuration = the code as it is): a model with an external tensor in
 another file round-trips; the same tensor stored in the destination data file is refused with nothing touched. -/
@@ -552,6 +606,7 @@ theorem later_save_keeps_roundtrip (cfg : Cfg) (hr : cfg.refuse = true) (m1 : Mo
   intro fs1
   have hinit := usable_of_ok cfg hr m1 dir1 name1 v1 fs bs none hinitR hok1
   obtain ⟨s', h1, h2⟩ := save_load_ok cfg m1.sig m1.tnames dir1 name1 (v1 && cfg.tqdm) (init m1 fs none) bs rfl hsig hinit
+    (model_file_free_of_ok cfg m1 dir1 name1 v1 fs none hok1)
   have hfs1 : fs1 = s'.fs := by
     show (runSave cfg m1 dir1 name1 v1 fs none).st.fs = _
     unfold runSave
@@ -631,6 +686,155 @@ theorem roundtrip_instance :
     let r := runSave { refuse := false } m "" "m" true fs none
     r.res = .ok () ∧
     load r.st.fs "" "m" = some [("s", false, [1, 2, 3]), ("d", false, List.replicate 300 7), ("b", true, List.replicate 260 9)] := by
+  decide +kernel
+
+/-! ## Histories: several calls on the same in-memory model (`OV.Model.C20Hist`) -/
+
+/-- **Any history of saves leaves the model and the data behind it intact** (invariant by induction over the history).
+The function with its second guard (`cfg.refuse = true`, the code as it is); a model all of whose tensor objects belong to an
+initializer, each initializer readable and denoting `bs[i]`.  Run *any* list of calls on this same model object — any
+destinations, verbosities and **any fault plan per call** (calls that succeed, calls refused by a guard, calls dying at their
+`k`-th file-system call, in any order).  **For the code as it is (`cfg.refuseModel = true`, guard of 3d20cf2) there is no further
+hypothesis**: a call whose *model file* `dir/name` is a file some tensor is stored in is refused and touches nothing.  For the
+guard before 3d20cf2 the statement needs "no call's model file is a file some tensor is stored in" (second disjunct of `hmp`;
+forced there: `backing_model_path_refuted`, finding C20-D5).  Then after the whole history the model is the model it
+was (pointers, every tensor object) and every initializer still denotes its original bytes on the file system the history
+left behind.  State carried from call to call: the model object and the file system, nothing else. -/
+theorem history_keeps_model_and_data (cfg : Cfg) (hr : cfg.refuse = true) (m : Model) (bs : List Bytes)
+    (howned : ∀ id, id < m.heap.length → some id ∈ m.cv)
+    (calls : List Call) (hmp : cfg.refuseModel = true ∨ ∀ c ∈ calls, NoExtIn m.heap (joinPath c.dir c.name)) :
+    ∀ (fs : FS), All2 (InitR fs m.heap) m.cv bs →
+      (runHistory cfg calls m fs).1 = m ∧ All2 (InitR (runHistory cfg calls m fs).2 m.heap) m.cv bs := by
+  induction calls with
+  | nil => intro fs h; exact ⟨rfl, h⟩
+  | cons c cs ih =>
+    intro fs h
+    have hm := model_unchanged cfg hr m c.dir c.name c.verbose fs c.k howned
+    have hi := initR_after_save cfg hr m c.dir c.name c.verbose fs c.k bs
+      (hmp.imp id (fun hmp => hmp c (List.mem_cons_self ..))) h
+    simp only [runHistory]
+    rw [hm]
+    exact ih (hmp.imp id (fun hmp c' hc' => hmp c' (List.mem_cons_of_mem _ hc'))) _ hi
+
+/-- Hypotheses are satisfiable by a model with an in-memory and an external tensor and a history with a faulted call, a
+successful call and a call to another destination. -/
+example : ∃ (m : Model) (bs : List Bytes) (calls : List Call) (fs : FS),
+    (∀ id, id < m.heap.length → some id ∈ m.cv) ∧ calls.length = 3 ∧
+    (∀ c ∈ calls, NoExtIn m.heap (joinPath c.dir c.name)) ∧ All2 (InitR fs m.heap) m.cv bs :=
+  ⟨{ sig := [("a", false), ("e", true)], cv := [some 0, some 1], heap := [.mem [1, 2, 3] true, .ext "w.bin" 1 2 true] },
+   [[1, 2, 3], [8, 7]],
+   [{ dir := "", name := "m", k := some 2 }, { dir := "", name := "m" }, { dir := "d", name := "n", verbose := true, k := some 0 }],
+   [("w.bin", .data [9, 8, 7])],
+   by intro id h
+      match id, h with
+      | 0, _ => simp
+      | 1, _ => simp
+      | n + 2, h => simp at h; omega,
+   rfl,
+   by intro c hc id f o l v h
+      match id, h with
+      | 0, h => simp at h
+      | 1, h =>
+        simp at h; obtain ⟨rfl, _⟩ := h
+        simp only [List.mem_cons, List.not_mem_nil, or_false] at hc
+        rcases hc with rfl | rfl | rfl <;> decide
+      | n + 2, h => simp at h,
+   .cons ⟨0, _, rfl, rfl, rfl⟩ (.cons ⟨1, _, rfl, rfl, ⟨rfl, by decide⟩⟩ .nil)⟩
+
+/-- **After any history, a save still round-trips** (`history_keeps_model_and_data` ∘ `roundtrip`).  Same hypotheses; after
+the history run one more, fault-free, save of the same model object to any destination `dir/name`: either it succeeds and
+`load` returns every initializer's name, level and *original* bytes in order, or some initializer is stored in that
+destination's data file (or model file) and the call is refused with the state untouched.  In particular a save that died at any
+file-system call can simply be retried (`retry_after_fault_roundtrips`), and saving twice is as good as saving once. -/
+theorem save_after_history_roundtrips (cfg : Cfg) (hr : cfg.refuse = true) (m : Model) (bs : List Bytes)
+    (hsig : m.sig.length = m.cv.length) (howned : ∀ id, id < m.heap.length → some id ∈ m.cv)
+    (calls : List Call) (hmp : cfg.refuseModel = true ∨ ∀ c ∈ calls, NoExtIn m.heap (joinPath c.dir c.name))
+    (fs : FS) (hinit : All2 (InitR fs m.heap) m.cv bs) (dir name : String) (verbose : Bool) :
+    let h := runHistory cfg calls m fs
+    ((runSave cfg h.1 dir name verbose h.2 none).res = .ok () ∧
+      load (runSave cfg h.1 dir name verbose h.2 none).st.fs dir name = some (zip3 m.sig bs)) ∨
+    ((destHits (joinPath dir (name ++ ".data")) m.heap m.cv ≠ [] ∨
+        (cfg.refuseModel = true ∧ destHits (joinPath dir name) m.heap m.cv ≠ [])) ∧
+      (runSave cfg h.1 dir name verbose h.2 none).res = .error .valueError ∧
+      (runSave cfg h.1 dir name verbose h.2 none).st = init m h.2 none) := by
+  intro h
+  obtain ⟨h1, h2⟩ := history_keeps_model_and_data cfg hr m bs howned calls hmp fs hinit
+  show (((runSave cfg (runHistory cfg calls m fs).1 dir name verbose (runHistory cfg calls m fs).2 none).res = .ok () ∧ _) ∨ _)
+  rw [h1]
+  exact roundtrip cfg hr m dir name verbose (runHistory cfg calls m fs).2 bs hsig h2
+
+/-- **Whenever a call of a history returns normally, what it wrote loads back the original model** (`roundtrip_on_success` after
+`history_keeps_model_and_data`): after any history as above, a further call with **any fault plan** `k` that returns normally
+leaves files from which `load` returns every initializer's name, level and original bytes in order.  Applied to every prefix of
+a history: each successful call of a history — the first, a retry, a re-save — is a complete round trip. -/
+theorem ok_call_after_history_roundtrips (cfg : Cfg) (hr : cfg.refuse = true) (m : Model) (bs : List Bytes)
+    (hsig : m.sig.length = m.cv.length) (howned : ∀ id, id < m.heap.length → some id ∈ m.cv)
+    (calls : List Call) (hmp : cfg.refuseModel = true ∨ ∀ c ∈ calls, NoExtIn m.heap (joinPath c.dir c.name))
+    (fs : FS) (hinit : All2 (InitR fs m.heap) m.cv bs) (dir name : String) (verbose : Bool) (k : Option Nat)
+    (hok : (runSave cfg (runHistory cfg calls m fs).1 dir name verbose (runHistory cfg calls m fs).2 k).res = .ok ()) :
+    load (runSave cfg (runHistory cfg calls m fs).1 dir name verbose (runHistory cfg calls m fs).2 k).st.fs dir name
+      = some (zip3 m.sig bs) := by
+  obtain ⟨h1, h2⟩ := history_keeps_model_and_data cfg hr m bs howned calls hmp fs hinit
+  rw [h1] at hok ⊢
+  exact roundtrip_on_success cfg hr m dir name verbose (runHistory cfg calls m fs).2 bs k hsig h2 hok
+
+/-- Instance: after a save that died at call 3, a retry *planned* to fail at call 100 (never reached) returns normally. -/
+example :
+    let m : Model := { sig := [("b", false)], cv := [some 0], heap := [.mem (List.replicate 300 9) false] }
+    (runSave {} (runHistory {} [{ dir := "", name := "m", k := some 3 }] m []).1 "" "m" false
+      (runHistory {} [{ dir := "", name := "m", k := some 3 }] m []).2 (some 100)).res = .ok () := by
+  decide +kernel
+
+/-- **A failed save can be retried.**  The save of `m` to `dir/name` fails at *any* file-system call `k₁` (or succeeds, or is
+refused); the model object is then unchanged, and a second, fault-free call with the same destination — over whatever the
+first call left on disk (a truncated data file, the old or an empty model file) — succeeds with a complete round trip of the
+original bytes, or is the guard's refusal that touches nothing. -/
+theorem retry_after_fault_roundtrips (cfg : Cfg) (hr : cfg.refuse = true) (m : Model) (dir name : String) (v1 v2 : Bool)
+    (fs : FS) (bs : List Bytes) (k1 : Option Nat)
+    (hsig : m.sig.length = m.cv.length) (howned : ∀ id, id < m.heap.length → some id ∈ m.cv)
+    (hmp : cfg.refuseModel = true ∨ NoExtIn m.heap (joinPath dir name)) (hinit : All2 (InitR fs m.heap) m.cv bs) :
+    let r1 := runSave cfg m dir name v1 fs k1
+    r1.model m = m ∧
+    (((runSave cfg (r1.model m) dir name v2 r1.st.fs none).res = .ok () ∧
+      load (runSave cfg (r1.model m) dir name v2 r1.st.fs none).st.fs dir name = some (zip3 m.sig bs)) ∨
+     ((destHits (joinPath dir (name ++ ".data")) m.heap m.cv ≠ [] ∨
+        (cfg.refuseModel = true ∧ destHits (joinPath dir name) m.heap m.cv ≠ [])) ∧
+      (runSave cfg (r1.model m) dir name v2 r1.st.fs none).res = .error .valueError ∧
+      (runSave cfg (r1.model m) dir name v2 r1.st.fs none).st = init m r1.st.fs none)) := by
+  intro r1
+  refine ⟨model_unchanged cfg hr m dir name v1 fs k1 howned, ?_⟩
+  exact save_after_history_roundtrips cfg hr m bs hsig howned [{ dir := dir, name := name, verbose := v1, k := k1 }]
+    (hmp.imp id (fun hmp c hc => by simp only [List.mem_cons, List.not_mem_nil, or_false] at hc; subst hc; exact hmp))
+    fs hinit dir name v2
+
+/-- Evaluated instance: the first call dies at its 4th file-system call leaving a truncated data file and no model file; the
+retry over those leftovers loads back both tensors; so does a third save. -/
+example :
+    let m : Model := { sig := [("b", false), ("e", true)], cv := [some 0, some 1],
+                       heap := [.mem (List.replicate 300 9) false, .ext "w.bin" 1 2 true] }
+    let fs : FS := [("w.bin", .data [9, 8, 7])]
+    let r1 := runSave {} m "" "m" true fs (some 3)
+    r1.res = .error .osError ∧ r1.st.fs ≠ fs ∧ FS.get? r1.st.fs "m" = none ∧
+    load (runSave {} (r1.model m) "" "m" false r1.st.fs none).st.fs "" "m"
+      = some [("b", false, List.replicate 300 9), ("e", true, [8, 7])] ∧
+    historyResults {} [{ dir := "", name := "m", k := some 3 }, { dir := "", name := "m" }, { dir := "", name := "m" }] m fs
+      = [.error .osError, .ok (), .ok ()] := by
+  decide +kernel
+
+/-- **Regression statement about the guard before 3d20cf2** (`refuseModel := false`; finding C20-D5, replayed on the real code
+at 3d20cf2~1; on the code as it is the same input is refused: `model_file_tensor_refused` and the example beside it).  A model
+whose initializer is an external tensor stored in `w.bin`, saved *to* `w.bin`: the call succeeded, the saved model loaded back
+correctly, the tensor object was untouched — and the file behind it then held the serialized model: the in-memory tensor no
+longer denoted its bytes (`valid()` stayed `True`, `numpy()` returned protobuf garbage).  This is why the history theorems
+need their `NoExtIn` disjunct when `cfg.refuseModel = false`. -/
+theorem backing_model_path_refuted :
+    let m : Model := { sig := [("e", false)], cv := [some 0], heap := [.ext "w.bin" 0 300 true] }
+    let fs : FS := [("w.bin", .data (List.replicate 300 7))]
+    let r := runSave { refuseModel := false } m "" "w.bin" false fs none
+    r.res = .ok () ∧ r.model m = m ∧
+    load r.st.fs "" "w.bin" = some [("e", false, List.replicate 300 7)] ∧
+    bytesOf fs (.ext "w.bin" 0 300 true) = some (List.replicate 300 7) ∧
+    bytesOf r.st.fs (.ext "w.bin" 0 300 true) = none := by
   decide +kernel
 
 end OV.Props.C20
